@@ -346,6 +346,13 @@ KNOWN_TRY_FROM = {
     "ReferenceTime": (0, "UncheckedReferenceTime",
                       "if value.clock_type == TimeClockType::Monotaonic && value.epoch != TimeEpoch::Unknow { return Err("),
 }
+# #[builder(field(build = ".."))]: a builder that computes the stored field instead of storing what it was given.
+# field -> (attribute text without white space, validator/builder number of Model/Serde.v build_norm that the enclosing
+# validated type gets).  Any other `field(..)` builder attribute is refused (fail closed): it changes what builders produce.
+KNOWN_BUILD_NORM = {
+    "ReferenceTime.epoch": ('builder(field(build="ifself.clock_type==Some(TimeClockType::Monotaonic){TimeEpoch::Unknow}'
+                            'else{self.epoch.clone().unwrap_or_default()}"))', 1),
+}
 
 SERDE_DERIVES = ("Serialize", "Deserialize")
 
@@ -367,6 +374,7 @@ class Translator:
         self.rust = {}        # path -> dict(kind, form, derives, builder, variants, newtype)
         self.order = []       # dependency order
         self.busy = set()
+        self.build_norm = {}  # struct path -> validator/builder number chosen by a known #[builder(field(build = ..))]
         for mod, rel in MODULES:
             with open(os.path.join(self.repo, rel)) as f:
                 src = strip_comments(f.read())
@@ -554,6 +562,11 @@ class Translator:
                     hexed = True
                 elif a.startswith("serialize_always"):
                     always = True
+                elif re.match(r"^builder\b", a) and re.search(r"\bfield\s*\(", a):
+                    known = KNOWN_BUILD_NORM.get(fw)
+                    if known is None or re.sub(r"\s+", "", a) != known[0]:
+                        raise SchemaError("%s: builder attribute that the translator does not know: #[%s]" % (fw, a))
+                    self.build_norm[where] = known[1]
                 elif re.match(r"^(builder|doc|allow)\b", a):
                     pass
                 else:
@@ -680,7 +693,9 @@ class Translator:
                 # deserialisation goes through the shadow type: same keys, types and missing-values
                 if [(k_, d_, s_) for k_, _, d_, s_ in sregs] != [(k_, d_, s_) for k_, _, d_, s_ in regs] or sflats != flats or sany != any_:
                     raise SchemaError("%s: shadow type %s does not mirror the fields" % (path, sp))
-                s = ("refine", pid, s)
+                s = ("refine", self.build_norm.get(path, pid), s)
+            elif path in self.build_norm:
+                raise SchemaError("%s: normalising builder on a type without validator" % path)
             return s
         # enums
         if opts["transparent"] or opts["default"] or opts["try_from"]:
